@@ -23,7 +23,7 @@ let () = iter_lines (fun line ->
              (match parse (after_assign toks) with
               | Ok (Some _, [], false) -> print_string "ok\n"
               | Ok (_, _, _) -> print_string "error\n"
-              | Hang -> print_string "hang\n" | Unsupported -> print_string "unsupported\n" | Generic -> print_string "generic\n"
+              | Unsupported -> print_string "unsupported\n" | Generic -> print_string "generic\n"
               | OutOfFuel -> print_string "fuel\n")
          | LNull -> print_string "lexnull\n"
          | LFuel -> print_string "fuel\n")
